@@ -396,6 +396,10 @@ impl Sim {
 
     /// server s answers one need (process_sync filter + handle_need)
     pub async fn op_serve(&mut self, s: usize, c: usize, a: ActorId, need: SyncNeedV1) -> eyre::Result<Vec<usize>> {
+        self.op_serve_p(s, c, a, need, false).await
+    }
+
+    pub async fn op_serve_p(&mut self, s: usize, c: usize, a: ActorId, need: SyncNeedV1, probe: bool) -> eyre::Result<Vec<usize>> {
         let absn = self.abs_need(&a, &need);
         let adv = proj_adv_all(&self.nodes[s].bookie, self.ids[s], &self.ids).await;
         let msgs = verif_process_sync(self.nodes[s].agent.pool().clone(), self.nodes[s].bookie.clone(), vec![vec![(a, vec![need])]]).await?;
@@ -409,8 +413,43 @@ impl Sim {
             }
         }
         let post = self.project(s).await?;
-        self.emit(json!({"op": "serve", "c": c + 1, "need": absn}), s, post, json!({"created": created, "adv": adv}));
+        self.emit(json!({"op": "serve", "c": c + 1, "need": absn, "probe": probe}), s, post, json!({"created": created, "adv": adv}));
         Ok(ids)
+    }
+
+    /// read-only probe of the sync server: every need within the advertised head of `a` at server s
+    pub async fn op_probe_sweep(&mut self, s: usize) -> eyre::Result<()> {
+        let st = generate_sync(&self.nodes[s].bookie, self.ids[s]).await;
+        for ai in 0..self.ids.len() {
+            let actor = self.ids[ai];
+            let head = st.heads.get(&actor).map(|v| v.0).unwrap_or(0);
+            let mut needs = vec![];
+            for lo in 1..=head {
+                for hi in lo..=head {
+                    needs.push(SyncNeedV1::Full { versions: CrsqlDbVersion(lo)..=CrsqlDbVersion(hi) });
+                }
+            }
+            for v in 1..=head {
+                for lo in 0..3u64 {
+                    for hi in lo..3u64 {
+                        needs.push(SyncNeedV1::Partial { version: CrsqlDbVersion(v), seqs: vec![CrsqlSeq(lo)..=CrsqlSeq(hi)] });
+                    }
+                }
+            }
+            for need in needs {
+                let absn = self.abs_need(&actor, &need);
+                let msgs = verif_process_sync(self.nodes[s].agent.pool().clone(), self.nodes[s].bookie.clone(), vec![vec![(actor, vec![need])]]).await?;
+                let mut created = vec![];
+                for m in msgs {
+                    if let SyncMessage::V1(SyncMessageV1::Changeset(cv)) = m {
+                        created.push(self.abs_msg(0, &cv));
+                    }
+                }
+                let post = self.project(s).await?;
+                self.emit(json!({"op": "probe", "need": absn}), s, post, json!({"created": created}));
+            }
+        }
+        Ok(())
     }
 
     /// crash node i at this commit boundary and restart it on a copy of its files with the real
@@ -499,12 +538,17 @@ pub async fn proj_adv_all(bookie: &Bookie, me: ActorId, ids: &[ActorId]) -> Valu
 
 /// seeded random walk over the real cluster
 pub async fn run_walk(seed: u64, nodes: usize, nkeys: i64, steps: usize, with_restart: bool, out_path: &str) -> eyre::Result<()> {
+    let sweeps: usize = std::env::var("VH_PROBE_SWEEPS").ok().and_then(|s| s.parse().ok()).unwrap_or(0);
     let mut rng = SmallRng::seed_from_u64(seed);
     let mut sim = Sim::new(nodes, nkeys).await?;
     let max_tx_per_node = 3u64;
     let mut restarts = 0;
     let mut own_counts = vec![0u64; nodes];
-    for _ in 0..steps {
+    for stepno in 0..steps {
+        if sweeps > 0 && stepno > steps / 4 && stepno % std::cmp::max(1, steps / (sweeps + 1)) == 0 {
+            let s = rng.random_range(0..nodes);
+            sim.op_probe_sweep(s).await?;
+        }
         let roll: u32 = rng.random_range(0..100);
         if roll < 18 {
             // local transaction (sometimes failing / no-op)
@@ -589,6 +633,32 @@ pub async fn run_walk(seed: u64, nodes: usize, nkeys: i64, steps: usize, with_re
             let c = rng.random_range(0..nodes);
             let s = rng.random_range(0..nodes);
             if c == s {
+                continue;
+            }
+            if rng.random_range(0..100) < 30 {
+                // C05 quantifies over every need a peer may send within the advertised heads, not only
+                // the ones an honest client computes: probe the server with an arbitrary one
+                let ai = rng.random_range(0..nodes);
+                if ai == c {
+                    continue;
+                }
+                let st = generate_sync(&sim.nodes[s].bookie, sim.ids[s]).await;
+                let head = st.heads.get(&sim.ids[ai]).map(|v| v.0).unwrap_or(0);
+                if head == 0 {
+                    continue;
+                }
+                let need = if rng.random_range(0..2) == 0 {
+                    let lo = rng.random_range(1..=head);
+                    let hi = rng.random_range(lo..=head);
+                    SyncNeedV1::Full { versions: CrsqlDbVersion(lo)..=CrsqlDbVersion(hi) }
+                } else {
+                    let v = rng.random_range(1..=head);
+                    let lo = rng.random_range(0..3u64);
+                    let hi = rng.random_range(lo..3u64);
+                    SyncNeedV1::Partial { version: CrsqlDbVersion(v), seqs: vec![CrsqlSeq(lo)..=CrsqlSeq(hi)] }
+                };
+                let actor = sim.ids[ai];
+                sim.op_serve_p(s, c, actor, need, true).await?;
                 continue;
             }
             let needs = sim.needs(c, s).await;
